@@ -188,6 +188,14 @@ func runWS(rc *core.RunCtx) {
 	wasClosed := closed
 	got := append([]string(nil), frames...)
 	mu.Unlock()
+	// a server that has stopped serving the connection must have closed it: a handler that
+	// returns while the hijacked socket stays open leaves the client waiting for ever
+	abandoned := false
+	select {
+	case <-serverDone:
+		abandoned = !wasClosed
+	default:
+	}
 	cc.Close()
 	synctest.Wait()
 	select {
@@ -199,6 +207,10 @@ func runWS(rc *core.RunCtx) {
 	}
 	desc := func() string {
 		return fmt.Sprintf("proto=%s script=%v\nframes received: %q\nclosed by server before client close: %v", proto, script, got, wasClosed)
+	}
+	if abandoned {
+		rc.Fail("connection-abandoned", "websocket", "the server stopped serving the connection but did not close it (no close frame, socket open)\n%s", desc())
+		return
 	}
 	if recovered.Load() != 0 {
 		rc.Fail("recover-hook-reached-without-user-panic", "websocket-"+panicKind(fmt.Sprint(recMsg.Load())), "RecoverFunc invoked %d time(s): %v\n%s", recovered.Load(), recMsg.Load(), desc())
